@@ -33,9 +33,12 @@ def tname(i):
     return "TI" if i["mode"] == "trait" else "T"
 
 
-def render(i, lib_path=None):
+def render(i, lib_path=None, modname=None):
     loc = i["loc"]
     it = item(i)
+    if modname:
+        # `p` of the model is the case module itself
+        it = it.replace("pub(in crate::cases::p)", f"pub(in crate::cases::{modname})")
     probe = "#[allow(unused_imports)] use {} as _Probe;"
     inner, outer = "", ""
     t = tname(i)
@@ -59,14 +62,14 @@ def main():
         i = c["in"]
         if i["loc"] == "other-crate":
             # the item lives in the library (it must compile there), the probe in the dependent crate
-            lib.add_case("x" + c["case"], render({**i, "loc": "none"}))
+            lib.add_case("x" + c["case"], render({**i, "loc": "none"}, modname="cx" + c["case"]))
             ext.add_case(c["case"], f"#[allow(unused_imports)] use ::c13lib::cases::cx{c['case']}::d::{tname(i)} as _Probe;\n")
         elif i["loc"] == "cousin":
             # the item in one case module, the probe in another module of the same crate
-            lib.add_case("y" + c["case"], render({**i, "loc": "none"}))
+            lib.add_case("y" + c["case"], render({**i, "loc": "none"}, modname="cy" + c["case"]))
             lib.add_case("u" + c["case"], f"#[allow(unused_imports)] use crate::cases::cy{c['case']}::d::{tname(i)} as _Probe;\n")
         else:
-            lib.add_case(c["case"], render(i))
+            lib.add_case(c["case"], render(i, modname="c" + c["case"]))
     dump = os.path.join(chk.work, "dump")
     dropped_lib, first_dump, it1 = lib.build(mode="check", dump=dump)
     bad_items = [k for k in dropped_lib if k.startswith("x") or k.startswith("y")]
@@ -98,14 +101,14 @@ def main():
             raise vf.ToolError(f"C13: cannot find the generated trait T in the expansion of case {cid}")
         o = {"compiled": d is None, "privacyonly": all(cd in PRIVACY for cd in codes) if d else True, "codes": codes,
              "vistext": vistext, "diag": [x["message"][:100] for x in (d or [])][:2]}
-        events.append({"case": cid, "l1": c["l1"], "obs": o, "pred": c["pred"], "predvis": ("pub(super)" if (i.get("via") == "inmod" and not i["vis"]) else i["vis"]).replace(" ", ""), "cls": ""})
+        events.append({"case": cid, "l1": c["l1"], "obs": o, "pred": c["pred"], "predvis": ("pub(super)" if (i.get("via") == "inmod" and not i["vis"]) else i["vis"]).replace(" ", "").replace("crate::cases::p)", "crate::cases::" + ("cx" if i["loc"] == "other-crate" else "cy" if i["loc"] == "cousin" else "c") + cid + ")"), "cls": ""})
     bad, drift = vf.validate(chk, "Trace_C13", events)
     byid = {c["case"]: c for c in cases}
     ev = {e["case"]: e for e in events}
     chk.cov["evaluations"] = len(events)
     chk.cov["distinct_nontrivial"] = sum(1 for e in events if not e["obs"]["compiled"])
     chk.cov["positive_probes"] = sum(1 for e in events if e["obs"]["compiled"])
-    chk.cov["rule"] = ("requested visibility {none, pub, pub(crate), and for fn inputs pub(super), pub(in crate::cases)} x item visibility (for trait inputs: the visibility keyword written before the target trait's name) {none, pub, "
+    chk.cov["rule"] = ("requested visibility {none, pub, pub(crate), and for fn inputs pub(super), pub(in crate::cases), pub(in crate::cases::<the module of the case>)} x item visibility (for trait inputs: the visibility keyword written before the target trait's name) {none, pub, "
                        "pub(crate)} x {fn, mod, trait (delegation-target trait)} x probe location {same module, child, sibling, parent, cousin (another module of the crate, outside the parent), other crate}; module inputs are probed through both names, the "
                        "re-export D::T and the trait itself D::m::T (from the locations that can name m); "
                        "all points replayed; non-trivial = negative probe (naming the trait must NOT compile)")
@@ -119,7 +122,7 @@ def main():
         d = chk.replay_dir()
         for cid in sorted({v["case"] for v in viol})[:30]:
             with open(os.path.join(d, f"case_{cid}.rs"), "w") as f:
-                f.write("// module crate::cases::c<id>\n" + render(byid[cid]["in"]))
+                f.write("// module crate::cases::c<id>\n" + render(byid[cid]["in"], modname="c" + cid))
             with open(os.path.join(d, f"case_{cid}.json"), "w") as f:
                 json.dump({"violations": [x for x in viol if x["case"] == cid], "event": ev[cid]}, f, indent=1)
         return d
